@@ -133,28 +133,24 @@ try:
         flat, nested_text = check_message(message, name, reencode=True)
         assert encoder.process(nested_text_to_flat_json(nested_text)).serialized_bytes == encoded.serialized_bytes
 
-    # ---- shapes whose nested text does not convert back today: behaviour is pinned
-    # (a) attribute hanging on a replication factor: its line is prefixed by dots and
-    #     taken for a value of its own
+    # (a) attribute hanging on a replication factor: its line is prefixed by dots, as is
+    #     the line of the factor; it is a reference like any other attribute, not a value
     encoded = encoder.process(build(
         [1001, 1002, 101000, 31001, 12001, 222000, 236000, 101005, 31031, 1031, 1032, 101005, 33007],
         [[1, 2, 2, 280.0, 281.0, 0, 0, 0, 0, 0, 0, 0, 98, 1, 70, 71, 72, 73, 74]]))
     message = decoder.process(encoded.serialized_bytes)
     flat = FlatJsonRenderer().render(message)
     converted = nested_text_to_flat_json(NestedTextRenderer().render(message))
-    values = flat[3][-1][0]
-    assert converted[:3] == flat[:3] and converted[4:] == flat[4:]
-    assert converted[3][:2] == flat[3][:2]
-    assert converted[3][-1] == [values[:3] + [72] + values[3:]]
+    assert converted == flat
+    assert encoder.process(converted).serialized_bytes == encoded.serialized_bytes
 
     with open('tests/benchmark_data/ocea_133.bufr', 'rb') as ins:
         message = decoder.process(ins.read())
     flat = FlatJsonRenderer().render(message)
     converted = nested_text_to_flat_json(NestedTextRenderer().render(message))
-    values = flat[4][-1][0]
-    assert converted[:4] == flat[:4] and converted[5:] == flat[5:]
-    assert converted[4][-1] == [values[:11] + [70] + values[11:]]
+    assert converted == flat
 
+    # ---- a shape whose nested text does not convert back today: behaviour is pinned
     # (b) 221YYY data not present: the skipped element is rendered as "id name"
     encoded = encoder.process(build([221003, 4001, 12001, 4002, 12001], [[2020, 11, 280.0]]))
     message = decoder.process(encoded.serialized_bytes)
